@@ -31,6 +31,25 @@ Definition dev_of (e : ev) : list dev :=
 
 Definition to_dev (t : trace) : list dev := flat_map dev_of t.
 
+(** Validate-before-mutate at lock level (a SIGNAL, no soundness theorem is claimed for it): a call that can give up
+    with the documented lock error (a try at a site whose failure returns ParentElementLocked = a "bail try") must not
+    have completed a write section before: no write-mode guard on a lock that existed before the call has been
+    RELEASED when a bail try is attempted.  Events carry a flag: for [Acq] "this is a bail try", for [Rel] "the lock
+    existed before the call" (writes to objects the call created itself cannot be observed when it gives up). *)
+Definition h_mode (h : hlist) (l : lock) : option mode :=
+  match find (fun p => N.eqb (fst p) l) h with Some p => Some (snd p) | None => None end.
+
+Fixpoint vbm_from (h : hlist) (wdone : bool) (t : list (ev * bool)) : bool :=
+  match t with
+  | [] => true
+  | (Acq _ m l, bail) :: t' => (if bail then negb wdone else true) && vbm_from ((l, m) :: h) wdone t'
+  | (Rel l, tracked) :: t' =>
+      let w := match h_mode h l with Some Wr => tracked | _ => false end in
+      vbm_from (remove_first l h) (wdone || w) t'
+  end.
+
+Definition validate_before_mutate (t : list (ev * bool)) : bool := vbm_from [] false t.
+
 Record verdicts := mkV { v_balanced : bool; v_self : bool; v_order : bool;
                          v_two_phase : bool; v_well_locked : bool; v_dbalanced : bool }.
 
@@ -45,6 +64,10 @@ Definition verdict_n (tbl : list (N * N)) (t t2 : trace) : list N :=
   let v := verdict tbl t t2 in
   [b2n (v_balanced v); b2n (v_self v); b2n (v_order v);
    b2n (v_two_phase v); b2n (v_well_locked v); b2n (v_dbalanced v)].
+
+(** the same with the validate-before-mutate signal appended; [t3] is [t] with the flags described above *)
+Definition verdict7 (tbl : list (N * N)) (t t2 : trace) (t3 : list (ev * bool)) : list N :=
+  verdict_n tbl t t2 ++ [b2n (validate_before_mutate t3)].
 
 (** replay of a recorded deadlock: running the schedule from the initial
     configuration of the recorded (truncated) traces ends in a stuck
@@ -83,6 +106,20 @@ Proof. vm_compute. reflexivity. Qed.
 Example verdict_self_try :
   verdict_n [(1, 10)] [Acq true Wr 1; Acq false Rd 1; Rel 1; Rel 1] [Acq true Wr 1; Rel 1]
   = [1; 0; 1; 1; 1; 1].
+Proof. vm_compute. reflexivity. Qed.
+
+(** write section on lock 2 completed, then a bail try on 3: rejected; the same with the try first: accepted *)
+Example vbm_rejects :
+  validate_before_mutate [(Acq true Wr 1, false); (Acq true Wr 2, false); (Rel 2, true); (Acq false Wr 3, true);
+                          (Rel 3, true); (Rel 1, true)] = false.
+Proof. vm_compute. reflexivity. Qed.
+Example vbm_accepts :
+  validate_before_mutate [(Acq true Wr 1, false); (Acq false Wr 3, true); (Acq true Wr 2, false); (Rel 2, true);
+                          (Rel 3, true); (Rel 1, true)] = true.
+Proof. vm_compute. reflexivity. Qed.
+(** a write section on a lock created by the call itself does not count *)
+Example vbm_fresh :
+  validate_before_mutate [(Acq true Wr 9, false); (Rel 9, false); (Acq false Rd 3, true); (Rel 3, true)] = true.
 Proof. vm_compute. reflexivity. Qed.
 
 Example stuck_after_abba :
